@@ -68,6 +68,9 @@ def run(prog, rep):
 # the property also covers builds that only have nanosleep(): same unit, clock_nanosleep disabled
 THOROUGH_CONFIGS = [dict(name="nanosleep-only", extra_flags={"puthread.c": ["-UPLIBSYS_HAS_CLOCKNANOSLEEP"]})]
 
+# generic robustness battery: renaming every local/parameter in these files must not change any verdict
+RENAME_LOCALS = ['src/psocket.c', 'src/puthread.c', 'src/psemaphore-posix.c', 'src/pshm-posix.c']
+
 SELFTEST = [
     dict(id="semwait-while-to-if", file="src/psemaphore-posix.c", expect="C19.1",
          old="\twhile ((res = sem_wait (sem->sem_hdl)) == -1 && p_error_get_last_system () == EINTR)\n\t\t;",
